@@ -45,6 +45,8 @@ var (
 func runSpec(spec *Spec) *Result {
 	res := &Result{ID: spec.ID}
 	sm := &seams{faults: spec.Faults, fired: map[string]int{}}
+	resetProcessGlobals()
+	freeMode = spec.Free
 	simrt.Reset(spec.Order, spec.Budget, nSites)
 	simrt.SetDisk(simDisk{sm})
 	tr := &simTransport{sm: sm, transient: map[string]int{}}
